@@ -367,3 +367,87 @@ def get_padding(repo, payload):
     """value DHEat.get_padding(payload) returns, or ('error', text)"""
     kind, r = _method_run(repo, 'dheat', 'DHEat', 'get_padding', [payload], {})
     return ('error', r) if kind == 'error' else r
+
+
+def recv_model(repo, buffered, pos, incoming):
+    """SSH_Socket.recv() interpreted on a receive buffer holding `buffered` with the read position at `pos`, while the socket delivers `incoming`.
+    -> (unread bytes afterwards, returned value) or ('error', text).  The receive buffer is the stream token the ReadBuf fields point to; a rebound buffer
+    (reset) is followed: what counts is what a reader would get next."""
+    rc = repo.func('ssh_socket', 'SSH_Socket.recv')
+    me = _Tok('<socket object>')
+    sock = _Tok('<socket>')
+    state = {'stream': Stream(buffered)}
+    state['stream'].pos = pos
+    state['stream'].bytearray = bytearray(buffered)
+    base = getattr(repo, '_codec_resolver', None)
+    if base is None:
+        base = repo._codec_resolver = repo_resolver(repo)
+
+    def resolver(call):
+        f = call.func
+        if isinstance(f, ast.Attribute) and isinstance(f.value, ast.Name) and f.value.id in ('self', 'cls', 'ReadBuf', 'SSH_Socket') and f.attr != 'recv':
+            for mod, cls in (('ssh_socket', 'SSH_Socket'), ('readbuf', 'ReadBuf')):
+                if repo.has_func(mod, cls + '.' + f.attr):
+                    return repo.func(mod, cls + '.' + f.attr)
+        return base(call)
+
+    def attr_hook(b, attr, interp):
+        return None
+
+    def hook(call, e, interp):
+        t = call_name(call) or unparse(call.func)
+        f = call.func
+        if t in ('io.BytesIO', 'BytesIO'):
+            a, kw = _vals(call, e, interp)
+            st = Stream(a[0] if a and a[0] is not None else b'')
+            st.bytearray = bytearray(st.data)
+            return (True, st)
+        if isinstance(f, ast.Attribute) and f.attr == 'recv' and not (isinstance(f.value, ast.Name) and f.value.id == 'self'):
+            return (True, incoming)
+        if isinstance(f, ast.Attribute) and f.attr in ('tell', 'seek', 'write', 'getvalue', 'read', 'truncate'):
+            try:
+                b = interp.value(f.value, e)
+            except Unknown:
+                b = None
+            if isinstance(b, Stream):
+                a, kw = _vals(call, e, interp)
+                buf = b.bytearray
+                if f.attr == 'tell':
+                    return (True, b.pos)
+                if f.attr == 'seek' and 1 <= len(a) <= 2 and all(isinstance(x, int) for x in a):
+                    whence = a[1] if len(a) == 2 else 0
+                    b.pos = a[0] if whence == 0 else (b.pos + a[0] if whence == 1 else len(buf) + a[0])
+                    return (True, b.pos)
+                if f.attr == 'write' and len(a) == 1 and isinstance(a[0], (bytes, bytearray)):
+                    buf[b.pos:b.pos + len(a[0])] = a[0]
+                    b.pos += len(a[0])
+                    return (True, len(a[0]))
+                if f.attr == 'getvalue':
+                    return (True, bytes(buf))
+                if f.attr == 'read' and len(a) <= 1:
+                    k = a[0] if a else None
+                    chunk = bytes(buf[b.pos:] if k is None or k < 0 else buf[b.pos:b.pos + k])
+                    b.pos += len(chunk)
+                    return (True, chunk)
+                raise Unknown('stream operation %s%r is not modelled' % (f.attr, tuple(a)))
+        return None
+    env = {'self': me, 'size': 2048, 'self.__sock': sock, 'self._buf': state['stream'], 'self._len': len(buffered)}
+    for k, v in _class_consts(repo.cls('ssh_socket', 'SSH_Socket')).items():
+        env['self.' + k] = v
+    try:
+        finals = Interp(call_hook=hook, resolver=resolver, budget=50000, try_normal_path=True).run(rc.body, env)
+    except Unknown as ex:
+        raise AnalysisError('SSH_Socket.recv cannot be interpreted: %s' % ex)
+    if len(finals) != 1 or finals[0].get('<forks>'):
+        raise AnalysisError('SSH_Socket.recv does not evaluate on a single path (forks %s)' % [f_.get('<forks>') for f_ in finals][:2])
+    fe = finals[0]
+    if fe.get('<crash>'):
+        return ('error', fe['<crash>'])
+    st = fe.get('self._buf')
+    if not isinstance(st, Stream):
+        raise AnalysisError('SSH_Socket.recv: the receive buffer afterwards is not computable (%r)' % (st,))
+    ln = fe.get('self._len')
+    unread = bytes(st.bytearray[st.pos:])
+    if isinstance(ln, int) and ln - st.pos != len(unread):
+        return (unread, fe.get('<return>'), 'unread_len would be %d, the buffer holds %d unread byte(s)' % (ln - st.pos, len(unread)))
+    return (unread, fe.get('<return>'), None)
